@@ -41,7 +41,7 @@ def sec_history_shards(tier, fn, all_scheds):
                     out.append({"fn": fn, "consts": {"ops": ops, "sched": sched, "nb": nb}, "timeout": 900})
     # the same node toggled three times without a lookup in between (a de-duplicated or reordered backlog shows only then)
     # growth without events after a burst; a lookup while the section is empty, then refilled with an address-less interval
-    for ops, sched, nb in (("AZu", 1, 3), ("AAu", 1, 3), ("rua", 3, 0), ("rud", 3, 0), ("uAd", 1, 3), ("AZAu", 1, 3), ("AAZu", 1, 3), ("ZAAu", 1, 4), ("ru", 3, 0), ("mu", 3, 0), ("ruA", 3, 0)):
+    for ops, sched, nb in (("AZu", 1, 3), ("AAu", 1, 3), ("rua", 3, 0), ("rud", 3, 0), ("uAd", 1, 3), ("AZAu", 1, 3), ("AAZu", 1, 3), ("ZAAu", 1, 4), ("ru", 3, 0), ("mu", 3, 0), ("ruA", 3, 0), ("ArA", 1, 4), ("ZrA", 1, 4), ("AmZ", 1, 4), ("armA", 1, 4)):
         out.append({"fn": fn, "consts": {"ops": ops, "sched": sched, "nb": nb}, "timeout": 900})
     for ops in ("rar", "ara", "AAA"):
         for sched in ((1,) if all_scheds else (1,)):
